@@ -13,6 +13,8 @@ use super::router::HttpRouter;
 use super::versioning::VersionPolicy;
 use super::ProbeRegistration;
 
+#[cfg(dropshot_verif)]
+use crate::verif_net::{TcpListener, TcpStream};
 use async_stream::stream;
 use debug_ignore::DebugIgnore;
 use futures::future::{
@@ -35,6 +37,7 @@ use std::pin::Pin;
 use std::sync::Arc;
 use std::task::{Context, Poll};
 use tokio::io::ReadBuf;
+#[cfg(not(dropshot_verif))]
 use tokio::net::{TcpListener, TcpStream};
 use tokio::sync::oneshot;
 use tokio_rustls::{server::TlsStream, TlsAcceptor};
@@ -159,6 +162,10 @@ impl<C: ServerContext> HttpServerStarter<C> {
         tls: Option<ConfigTls>,
         version_policy: VersionPolicy,
     ) -> Result<HttpServerStarter<C>, BuildError> {
+        #[cfg(dropshot_verif)]
+        let tcp = TcpListener::bind_sim(config.bind_address)
+            .map_err(|e| BuildError::bind_error(e, config.bind_address))?;
+        #[cfg(not(dropshot_verif))]
         let tcp = {
             let std_listener = std::net::TcpListener::bind(
                 &config.bind_address,
